@@ -111,7 +111,7 @@ def check_C12(tier, seed):
     z = sizes(tier)
     for p in ("debug", "release"): build_harness(p)
     proof = prove("C12", ["Soa.Props.C12", "Soa.Lemmas.SkelCapTie", "Soa.Lemmas.SkelRead.C12", "Soa.Lemmas.Delegations.C12"])
-    scs = gen.cap_scenarios(gen.CAP_SHAPES, z["nrand"], z["nops"], seed)
+    scs = gen.cap_scenarios(gen.CAP_SHAPES, z["nrand"], z["nops"], seed) + gen.reserve_overflow(gen.CAP_SHAPES)
     suites = [run_suite("C12", scs, ["debug", "release"], [mon_c12], "capacity", compare_model=MODEL_C12),
               # the capacity API and the growing operations dispatched through the SoAVec trait
               run_suite("C12", [gen.to_trait(s) for s in scs[::3]], ["debug", "release"], [mon_c12], "trait-capacity", compare_model=MODEL_C12)]
@@ -131,7 +131,9 @@ def check_C17(tier, seed):
     scs = (gen.vec_boundary(sh, L, with_masks=(tier != "quick")) + gen.vec_random(sh, z["nrand"], z["nops"], seed, p_invalid=0.25)
            + gen.index_exhaustive(sh, L) + gen.trait_access(sh, min(L, 3))
            + [gen.to_trait(s) for s in gen.vec_random(sh, z["nrand"] // 2, z["nops"], seed + 5)]
-           + gen.cap_scenarios(gen.CAP_SHAPES, z["nrand"] // 2, z["nops"], seed)
+           + gen.cap_scenarios(gen.CAP_SHAPES, z["nrand"] // 2, z["nops"], seed) + gen.reserve_overflow(gen.CAP_SHAPES)
+           # long vectors: anything that packs per-element flags into machine words changes behaviour around 64 elements
+           + gen.vec_random(sh, 24 if tier == "quick" else 400, 8, seed + 11, p_invalid=0.25, max_len=150, start=(60, 135))
            # invalid arguments of the mutable-slice API (swap, apply_index with lists that are no permutations, sorts of invalid ranges)
            + gen.slicemut_invalid(["One", "Two", "NMid"] if tier == "quick" else sh, min(L, 3), seed))
     suites = [run_profile_diff("C17", scs)]
